@@ -15,7 +15,7 @@ var yieldSites = []string{
 	"mu.lock.enter", "mu.lock.acquired", "mu.unlock", "mu.forcelock",
 	"close.flagged", "close.rwc", "close.torn",
 	"wf.armed", "wf.written", "rf.header", "rf.payload",
-	"hc.closing.1", "hc.closing.2", "mr.read.ret", "closeread.start", "ping.registered",
+	"hc.closing.1", "hc.closing.2", "mr.read.ret", "closeread.start", "closeread.closed", "ping.registered",
 	"closeMu.before",
 }
 
